@@ -104,7 +104,9 @@ CHECKS = {
     ),
     "C04": dict(
         level="proof",
-        campaigns=[dict(engine="udp", n=n(150, 3000), netns=True)],
+        # natlife: its teardown-race step sends a datagram while the expired association's copier is held inside
+        # RemoveNatEntry (entry still in the table): a second association for the same client there is a C04 violation
+        campaigns=[dict(engine="udp", n=n(150, 3000), netns=True), dict(engine="natlife", n=n(8, 150), netns=True, args={"life": 1})],
         trusted_base=UDP_TB, assumptions=UDP_AS,
     ),
     "C14": dict(
